@@ -703,6 +703,78 @@ func runC10(c *Ctx) {
 		c.verdict(okRebuild, c.nm(pb)+" | filterEntries rebuilt from every cached entry", c.P.Pos(pb.Pos()), "for _, entry := range cache { filterEntries = append(filterEntries, entry) }", "the watch list is not rebuilt from all cached entries")
 	})
 
+	c.rule("C10.V4", "every caller waits on a request of its own: a GetUtxoRequest serves one reader (its result channel holds one result and Result reads it once), so Enqueue returns nothing but the request it allocated in this call (or nil with an error), that request is what it pushes on the queue, and its result channel is made in the call with capacity 1; handing out a request another caller already holds leaves one of them waiting", func() {
+		fn := c.fn("(*neutrino.UtxoScanner).Enqueue")
+		reqT := c.P.Named("neutrino", "GetUtxoRequest")
+		var fresh []*ssa.Alloc
+		ir.Instrs(fn, func(in ssa.Instruction) {
+			if al, ok := in.(*ssa.Alloc); ok && al.Heap {
+				if p, ok := al.Type().(*types.Pointer); ok && types.Identical(p.Elem(), reqT) {
+					fresh = append(fresh, al)
+				}
+			}
+		})
+		isFresh := func(v ssa.Value) bool {
+			for _, al := range fresh {
+				if ir.Strip(v) == ssa.Value(al) {
+					return true
+				}
+			}
+			return false
+		}
+		var bad []string
+		var allOf func(v ssa.Value, ok func(ssa.Value) bool, depth int) bool
+		allOf = func(v ssa.Value, ok func(ssa.Value) bool, depth int) bool {
+			if p, isPhi := v.(*ssa.Phi); isPhi && depth < 6 {
+				for _, e := range p.Edges {
+					if !allOf(e, ok, depth+1) {
+						return false
+					}
+				}
+				return true
+			}
+			return ok(v)
+		}
+		rets := find(fn, isExit)
+		for _, r := range rets {
+			ret, isRet := r.(*ssa.Return)
+			if !isRet {
+				continue
+			}
+			v := ir.RetVal(ret, 0)
+			if !allOf(v, func(x ssa.Value) bool { return ir.IsNil(ir.Strip(x)) || isFresh(x) }, 0) {
+				bad = append(bad, "the request returned at "+c.at(r)+" can be one that was not allocated in this call")
+			}
+		}
+		push := c.funcObj("container/heap", "Push")
+		pushes := find(fn, callTo(push))
+		for _, p := range pushes {
+			a := ir.CallOf(p).Args
+			if len(a) != 2 || !isFresh(ir.Strip(a[1])) {
+				bad = append(bad, "what is queued at "+c.at(p)+" is not the request allocated in this call")
+			}
+		}
+		rc := c.field("neutrino", "GetUtxoRequest", "resultChan")
+		okChan := false
+		for _, st := range find(fn, storeToField(rc)) {
+			fa, _ := st.(*ssa.Store).Addr.(*ssa.FieldAddr)
+			mk, isMk := ir.Strip(st.(*ssa.Store).Val).(*ssa.MakeChan)
+			if fa != nil && isFresh(fa.X) && isMk {
+				if k, isC := ir.ConstInt(mk.Size); isC && k == 1 {
+					okChan = true
+				}
+			}
+		}
+		if !okChan {
+			bad = append(bad, "the request's result channel is not made in the call with capacity 1")
+		}
+		if len(fresh) != 1 || len(pushes) < 1 {
+			bad = append(bad, fmt.Sprintf("%d request(s) allocated, %d queued, 1 and at least 1 tabled", len(fresh), len(pushes)))
+		}
+		sort.Strings(bad)
+		c.verdict(len(bad) == 0, c.nm(fn)+" | returns and queues the request it allocated", c.P.Pos(fn.Pos()), "one fresh GetUtxoRequest with a result channel of capacity 1: queued, and the only non-nil result", join(bad), c.ats(rets)...)
+	})
+
 	c.rule("C10.L1", "UtxoScanner.pq and nextBatch are accessed only under s.mu (= s.cv.L); GetUtxoRequest.result only under r.mu", func() {
 		mu := c.field("neutrino", "UtxoScanner", "mu")
 		exempt := map[string]string{"neutrino.NewUtxoScanner": "constructor"}
